@@ -225,11 +225,13 @@ impl BytesModel {
         let acts: String = st.hist.iter().map(|a| if *a == Act::Next { 'N' } else { 'B' }).collect();
         let mut v = self.violations.lock().unwrap();
         if v.len() < 64 {
+            let class = if what.starts_with("ALLOC ") { "alloc" } else { "wrong_result" };
             v.push(Violation {
-                class: "wrong_result".into(),
+                class: class.into(),
                 key: ((st.hist.len() as u64) << 32) | c.hay.len() as u64,
                 what: format!(
-                    "[wrong_result] {} needles={} haystack={} (len {}, align {}) after history [{}]: {}",
+                    "[{}] {} needles={} haystack={} (len {}, align {}) after history [{}]: {}",
+                    class,
                     c.kind,
                     hex(&c.nd[..kind_k(c.kind)]),
                     hex(c.hay),
@@ -273,14 +275,18 @@ impl BytesModel {
         let mut st = last.clone();
         st.hist.push(act);
         let before = last.it.dbg();
+        let a0 = crate::alloc::allocs();
         let (got, exp) = match act {
             Act::Next => (st.it.next(), if remaining > 0 { Some(c.positions[last.f as usize] as usize) } else { None }),
             Act::NextBack => {
                 (st.it.next_back(), if remaining > 0 { Some(c.positions[(n - 1 - last.b) as usize] as usize) } else { None })
             }
         };
+        let made = crate::alloc::allocs() - a0;
         let mut bad = None;
-        if got != exp {
+        if made > 0 {
+            bad = Some(format!("ALLOC {:?} made {} heap allocation(s)", act, made));
+        } else if got != exp {
             bad = Some(format!("{:?} returned {:?}, reference model {:?}", act, got, exp));
         } else if got.is_some() {
             match act {
@@ -436,6 +442,50 @@ fn build_cases(kinds: &[&'static str], l1: usize, l23: usize, long: bool, aligns
                     }
                 }
             }
+            // stride shapes: R matches exactly d bytes apart (d = 2..=9), then
+            // a disruption of the rhythm - an extra match directly before /
+            // after the next on-stride position, the on-stride match missing,
+            // or one byte early / late - and a tail
+            let reps: Vec<usize> = if thorough_runs() { (14..=40).collect() } else { vec![15, 16, 17, 18, 19, 20] };
+            for d in 2..=9usize {
+                for &rl in &reps {
+                    for disruption in 0..5 {
+                        let mut data: Vec<u8> = vec![];
+                        for i in 0..rl {
+                            data.push(nd[i % k]);
+                            data.extend(std::iter::repeat(other).take(d - 1));
+                        }
+                        // `data.len()` is the next on-stride position
+                        match disruption {
+                            0 => {
+                                let l = data.len();
+                                data[l - 1] = nd[0];
+                                data.push(nd[(rl + 1) % k]);
+                            }
+                            1 => {
+                                data.push(nd[0]);
+                                data.push(nd[(rl + 1) % k]);
+                            }
+                            2 => data.push(other),
+                            3 => {
+                                let l = data.len();
+                                data[l - 1] = nd[0];
+                                data.push(other);
+                            }
+                            _ => {
+                                data.push(other);
+                                data.push(nd[0]);
+                            }
+                        }
+                        data.extend(std::iter::repeat(other).take(10));
+                        if disruption % 2 == 0 {
+                            data.push(nd[0]);
+                        }
+                        let hay = crate::leak_placed(&data, 5, nd[0]);
+                        cases.push(Case { kind, nd, hay, align: 5, positions: positions(k, nd, hay) });
+                    }
+                }
+            }
             // long haystacks: matches inside one vector, at vector and loop
             // boundaries, sparse, and all-match
             for &len in &[70usize, 200, 300] {
@@ -580,7 +630,7 @@ pub fn run(args: &Args, thorough: bool, total: &mut Report, bounds: &mut Map<Str
     });
     bounds.insert("bytes-model".into(), json!({
         "kinds": kinds, "init_states": ncases, "full_len_k1": l1, "full_len_k23": l23, "aligns": aligns,
-        "long_haystacks": [70, 200, 300], "run_shapes": if thorough { "m^R o^G m^S for R in 0..=70, G in {1,2,17}, S in {0,1,2,20}" } else { "m^R o^G m^S for R in {1,2,8,14..20,30..35}, G in {1,2}, S in {0,2}" }, "unique_states": unique, "generated_states": generated, "max_depth": depth,
+        "long_haystacks": [70, 200, 300], "stride_shapes": if thorough { "R = 14..=40 matches d = 2..=9 bytes apart, then 5 disruptions of the rhythm" } else { "R = 15..=20 matches d = 2..=9 bytes apart, then 5 disruptions of the rhythm" }, "run_shapes": if thorough { "m^R o^G m^S for R in 0..=70, G in {1,2,17}, S in {0,1,2,20}" } else { "m^R o^G m^S for R in {1,2,8,14..20,30..35}, G in {1,2}, S in {0,2}" }, "unique_states": unique, "generated_states": generated, "max_depth": depth,
         "history_cross_check": {"depth": d, "histories": n_hist.load(Ordering::Relaxed)},
     }));
 }
